@@ -30,5 +30,5 @@ AllBlowups == {2, 4, 8, 16, 32, 64, 128}
 SomeBlowups == {2, 8, 128}
 \* the bit lengths of every modulus of Security!Flds (7, 9, 16, 31, 62, 64, 128)
 AllFieldBits == {FieldBitsOf(f) : f \in Flds}
-AllCRs == {96, 124, 128}
+AllCRs == {64, 96, 124, 128}     \* 64: a hasher with a 128-bit digest (custom Hasher implementations)
 =============================================================================
